@@ -11,6 +11,8 @@ CTX_PROGS = ['a.$substringBefore("-")', 'list.s.$substringAfter("-")', '$pad(?, 
              '$replace(a, /-/, "+")', 'a ~> $replace("-", "+", 1)', 'a ~> $replace("-", "+")', 'a ~> $substring(1, 3)', 'nums ~> $reduce(function($p,$q){$p+$q}, 100)',
              '($f := function($a,$b,$c,$d){[$a,$b,$c,$d]}; a ~> $f(10, 20, 30))', '($f := function($a,$b,$c,$d,$e,$g){$a & $b & $c & $d & $e & $g}; a ~> $f(1,2,3,4,5))',
              '($f := function($a,$b,$c,$d,$e,$g,$h){$a & $g & $h}; a ~> $f(1,2,3,4,5,6))', '($f := function($a,$b,$c,$d,$e,$g,$h,$i){$a & $h & $i}; a ~> $f(1,2,3,4,5,6,7))', 'a ~> $pad(20, "#") ~> $replace("#", "=", 2)', '( $f := function($x){$x * 2}; nums.$f($) )', '$reduce(nums, function($p,$q){$p + $q})', '$string($) & $string($)', '$keys($)',
+             # literal positions (also negative and out of range) over arrays whose length changes from input to input
+             'nums[-1]', 'nums[-2]', 'nums[-7]', 'nums[0]', 'nums[3]', 'list[-1].s', 'list[-2]', '$.nums[-1] + 0', 'nums[-1][0]', 'nums[[-1, 0]]', 'nums[1.5]', 'nums[-1.5]', '(nums)[-1]', '$append(nums, 1)[-1]', 'list.s[-1]',
              # groupings and constructors whose member values ARE the grouped items (not aggregates of them)
              'list{s: $}', 'list{s: [$]}', 'list{s: $.s}', 'nums{$string($ % 2): $}', 'nums{$string($ % 3): [$, $count($)]}', 'list{$substringBefore(s, "-"): $}', '$ ~> |list|{"grp": $$.list{s: $}}|',
              '(nums{$string($ % 2): $}).*', 'nums{$string($ > 4): $}.`true`', 'list{s: ($g := $; $g)}', 'list{s: function(){$}}.*()' ,
